@@ -34,7 +34,7 @@ Section c01.
 
   Lemma ready_inv_step s s' : wf s -> ready_inv s -> step_inv fx watch s s' -> ready_inv s'.
   Proof.
-    intros Hwf Hri [t a e ok a' os ob Ha Hst Hact Hh Hmsg Herr Hm _ _ _ _ _ _ _|Hact Hib Hh _ Hrq _|ts _ Hact Hib Hh Hrq _ _ _].
+    intros Hwf Hri [t a e ok a' os ob Ha Hst Hact Hh Hmsg Herr Hm _ _ _ _ _ _ _ _|Hact Hib Hh _ Hrq _|ts _ Hact Hib Hh Hrq _ _ _].
     - destruct (Hwf t a Ha) as [Hid Hg].
       destruct (step_same_id _ _ _ _ _ _ _ Hst) as (Hi' & Hk' & Hd').
       assert (Hunav' : forall k d, d ∈ a_deps a -> d ∉ unav a' k -> ready (hist s') k d).
@@ -88,7 +88,7 @@ Section c01.
   Lemma start_ok_step s s' :
     wf s -> ready_inv s -> start_ok (hist s) -> step_inv fx watch s s' -> start_ok (hist s').
   Proof.
-    intros Hwf Hri Hso [t a e ok a' os ob Ha Hst Hact Hh Hmsg Herr Hm _ _ _ _ _ _ _|_ _ Hh _ _ _|ts _ _ _ Hh _ _ _ _];
+    intros Hwf Hri Hso [t a e ok a' os ob Ha Hst Hact Hh Hmsg Herr Hm _ _ _ _ _ _ _ _|_ _ Hh _ _ _|ts _ _ _ Hh _ _ _ _];
       [|by rewrite Hh|by rewrite Hh].
     intros h1 t0 h2 Heq kt deps Hg0 d k Hd. rewrite Hh in Heq.
     destruct (app_eq_mid _ _ _ _ _ Heq) as [[h2' Hold]|(ob1 & ob2 & Hob & ->)].
